@@ -118,6 +118,7 @@ pub fn gen_project(rng: &mut crate::rng::Rng, rare_features: bool) -> Option<(St
     let mut oo = OpOpts::standard();
     oo.shorthand = true;
     if rare_features {
+        oo.shared_names = true;
         oo.coercing_literals = rng.coin();
         oo.nullable_var_with_default = rng.coin();
     }
